@@ -5,6 +5,7 @@ import Qryn.Proofs.ProfSelector
 import Qryn.Proofs.Stepped
 import Qryn.Proofs.Downsample
 import Qryn.Proofs.PromLabels
+import Qryn.Proofs.SeriesOrder
 /-! # C17 — Prometheus and Pyroscope label matchers select exactly the matching series
 
 Property theorems only.
@@ -945,5 +946,223 @@ example : ((fpUnion (fun _ _ => false) "g" [50, 48] 2
     = some [[95, 95, 110, 97, 109, 101, 95, 95], [97]] := by decide
 
 end Metadata
+
+/-! ## Part 8 — what the engine asks for and what every function class gets (`populateSeries` → `Querier.Select` →
+    `transpileLabelMatchers` → `processHints`)
+
+Model: `Stepped.engineHints` (what the pinned engine passes for a selector outside sub-queries, tied to the real engine by
+the `hints` stream over every function of `parser.Functions` and every aggregator), `Stepped.classOf` (the three classes
+`processHints` distinguishes), `Stepped.usesRaw` (the routing of `CLokiQuerier.transpileLabelMatchers`). -/
+section Hints
+open Qryn Qryn.Prom.Stepped Qryn.Read.Assembly
+
+theorem instant_not_range (f : String) (h : isInstant f = true) : isRangeFn f = false := by
+  cases hr : isRangeFn f with
+  | false => rfl
+  | true =>
+    have hmem : f ∈ Gen.PromStep.rangeFuncs := by simpa [isRangeFn] using hr
+    have := stepped_function_tables.1 f hmem
+    rw [h] at this; cases this
+
+/-- **hints_class_behaviour.** What `Select` does to the scanned rows for **every** `SelectHints` — every function name,
+    step and range:
+    * an instant query (`Step = 0`): nothing — the engine gets the raw samples of the window;
+    * a function of neither table (every aggregation — `sum`, `avg`, `topk`, `count_values`, … —, `timestamp`,
+      `quantile_over_time`, `changes`, `holt_winters`, `predict_linear`, `histogram_quantile`, `label_replace`, …):
+      nothing;
+    * a range-vector function with `Step ≤ Range` (consecutive windows touch or overlap): nothing;
+    * a range-vector function with `Step > Range`: exactly the window filter (`range_filter_exact`);
+    * `""` (a bare selector, or a selector under a binary operator) or an instant-vector function of the table, in a range
+      query: exactly the per-step aggregation (`stepped_bucket_rows`; the recorded finding). -/
+theorem hints_class_behaviour (h : Hints) (rows : List Row) :
+    (h.step = 0 → run h rows = rows) ∧
+    (classOf h.func = .other → run h rows = rows) ∧
+    (classOf h.func = .range → h.step ≤ h.range → run h rows = rows) ∧
+    (classOf h.func = .range → h.step ≠ 0 → h.step > h.range → run h rows = rows.filter (fun r => keepNow h r.ts)) ∧
+    (classOf h.func = .instant → h.step ≠ 0 → run h rows = bucket h.start h.step rows) := by
+  refine ⟨?_, ?_, ?_, ?_, ?_⟩
+  · intro h0; simp [Qryn.Prom.Stepped.run, h0]
+  · intro hc
+    have h1 : isInstant h.func = false := by
+      cases hi : isInstant h.func with
+      | false => rfl
+      | true => simp [classOf, hi] at hc
+    have h2 : isRangeFn h.func = false := by
+      cases hr : isRangeFn h.func with
+      | false => rfl
+      | true => simp [classOf, h1, hr] at hc
+    by_cases h0 : h.step = 0 <;> simp [Qryn.Prom.Stepped.run, h0, h1, h2]
+  · intro hc hle
+    have h1 : isInstant h.func = false := by
+      cases hi : isInstant h.func with
+      | false => rfl
+      | true => simp [classOf, hi] at hc
+    have hgt : ¬ h.step > h.range := by omega
+    by_cases h0 : h.step = 0 <;> simp [Qryn.Prom.Stepped.run, h0, h1, hgt]
+  · intro hc h0 hgt
+    have h1 : isInstant h.func = false := by
+      cases hi : isInstant h.func with
+      | false => rfl
+      | true => simp [classOf, hi] at hc
+    have h2 : isRangeFn h.func = true := by
+      cases hr : isRangeFn h.func with
+      | true => rfl
+      | false => simp [classOf, h1, hr] at hc
+    simp [Qryn.Prom.Stepped.run, h0, h1, h2, hgt]
+  · intro hc h0
+    have h1 : isInstant h.func = true := by
+      cases hi : isInstant h.func with
+      | true => rfl
+      | false =>
+        cases hr : isRangeFn h.func <;> simp [classOf, hi, hr] at hc
+    simp [Qryn.Prom.Stepped.run, h0, h1, instant_not_range h.func h1]
+
+/-- **engine_reads_within_hints.** With the hints the engine passes (`engineHints`; offset `off`, lookback Δ ≥ 0), every
+    sample time the engine reads for the selector lies inside `[hints.Start, hints.End]`: for an instant selector the
+    lookback window `[t − off − Δ, t − off]` of every evaluation time `t = start + i·step ≤ end` (of `t = start` for an
+    instant query), for a range selector the window `[t − off − range, t − off]`. With `scan_window_ms`: every stored
+    sample the engine reads for a selector is scanned. -/
+theorem engine_reads_within_hints (q : Query) (lookback range off : Int) (func : String)
+    (hl : 0 ≤ lookback) (hr : 0 ≤ range) (hstep : 0 ≤ q.step) (i : Nat) (ts : Int)
+    (hend : q.start + i * q.step ≤ q.stop)
+    (hlo : q.start + i * q.step - off - (if range = 0 then lookback else range) ≤ ts)
+    (hhi : ts ≤ q.start + i * q.step - off) :
+    (engineHints q lookback range off func).start ≤ ts ∧ ts ≤ (engineHints q lookback range off func).stop := by
+  have hi : 0 ≤ (i : Int) * q.step := Int.mul_nonneg (Int.natCast_nonneg i) hstep
+  simp only [engineHints]
+  constructor <;> omega
+
+/-- **instant_query_raw.** An instant query (`NewInstantQuery`: interval 0, `start = end`) is always answered from the raw
+    samples, whatever the function: the routing takes the raw path (`Step = 0 < 15 s`) and `processHints` is not applied
+    (`hints.Step != 0` gate) — the engine gets exactly the scanned samples of `[t − Δ − off, t − off]` (resp. the range
+    window), `scan_window_ms`, of the series `select_matches_prometheus` selects. -/
+theorem instant_query_raw (h : Hints) (rows : List Row) (h0 : h.step = 0) :
+    usesRaw h = true ∧ run h rows = rows := by
+  refine ⟨?_, by simp [Qryn.Prom.Stepped.run, h0]⟩
+  have : decide (h.step < Gen.PromStep.downsampleMs) = true := by
+    rw [h0]; decide
+  simp [usesRaw, this]
+
+/-- **downsample_route_conditions.** The down-sampled path (`metrics_15s`) is taken exactly when `Start` is a multiple of
+    15 s, `Step ≥ 15 s`, the range is 0 or at least 15 s, and the function is one of the supported table or unknown to it
+    (`quantile_over_time`, `stddev_over_time`, `stdvar_over_time` are listed as unsupported); in particular **every query
+    with a step below 15 s — the quantifier of the property's last clause — reads raw samples**. -/
+theorem downsample_route_conditions (h : Hints) :
+    (usesRaw h = false ↔
+      h.start % Gen.PromStep.downsampleMs = 0 ∧ Gen.PromStep.downsampleMs ≤ h.step ∧
+      (h.range ≤ 0 ∨ Gen.PromStep.downsampleMs ≤ h.range) ∧
+      (Gen.PromStep.supportedFuncs.lookup h.func = some true ∨ Gen.PromStep.supportedFuncs.lookup h.func = none)) ∧
+    (h.step < Gen.PromStep.downsampleMs → usesRaw h = true) := by
+  constructor
+  · simp only [usesRaw]
+    cases hl : Gen.PromStep.supportedFuncs.lookup h.func with
+    | none =>
+      simp only [Option.getD_none, Option.isNone_none, Bool.or_true, Bool.not_true, Bool.or_false, Bool.or_eq_false_iff,
+        bne_eq_false_iff_eq, decide_eq_false_iff_not, Bool.and_eq_false_iff]
+      constructor
+      · rintro ⟨⟨h1, h2⟩, h3⟩
+        refine ⟨h1, by omega, ?_, Or.inr trivial⟩
+        rcases h3 with h3 | h3 <;> first | (left; omega) | (right; omega)
+      · rintro ⟨h1, h2, h3, _⟩
+        refine ⟨⟨h1, by omega⟩, ?_⟩
+        rcases h3 with h3 | h3 <;> first | (left; omega) | (right; omega)
+    | some b =>
+      cases b
+      · simp
+      · simp only [Option.getD_some, Option.isNone_some, Bool.or_false, Bool.not_true, Bool.or_eq_false_iff,
+          bne_eq_false_iff_eq, decide_eq_false_iff_not, Bool.and_eq_false_iff]
+        constructor
+        · rintro ⟨⟨h1, h2⟩, h3⟩
+          refine ⟨h1, by omega, ?_, Or.inl trivial⟩
+          rcases h3 with h3 | h3 <;> first | (left; omega) | (right; omega)
+        · rintro ⟨h1, h2, h3, _⟩
+          refine ⟨⟨h1, by omega⟩, ?_⟩
+          rcases h3 with h3 | h3 <;> first | (left; omega) | (right; omega)
+  · intro hlt
+    have : decide (h.step < Gen.PromStep.downsampleMs) = true := by simpa using hlt
+    simp [usesRaw, this]
+
+-- the classes of some names (regenerated tables): decided
+example : classOf "" = .instant ∧ classOf "abs" = .instant ∧ classOf "rate" = .range ∧ classOf "max_over_time" = .range ∧
+    classOf "sum" = .other ∧ classOf "timestamp" = .other ∧ classOf "quantile_over_time" = .other ∧
+    classOf "changes" = .other ∧ classOf "histogram_quantile" = .other := by decide
+-- non-vacuity of `engine_reads_within_hints`: query [60000, 120000] step 5000, lookback 300000, instant selector, offset 1000
+example : (engineHints ⟨60000, 120000, 5000⟩ 300000 0 1000 "").start = -241000 ∧
+    (engineHints ⟨60000, 120000, 5000⟩ 300000 0 1000 "").stop = 119000 := by decide
+
+end Hints
+
+/-! ## Part 9 — the `SeriesSet` as a whole: order of the series, row batches
+
+`storage.SeriesSet`: "the series … sorted by labels when `sortSeries` is asked". The pinned engine calls `Select(false, …)`
+and does not rely on the order; qryn sorts every result. Model: `Read.SeriesOrder.lessSeries` = the comparator of the final
+`sort.Slice` of `Select`, over label sets sorted by name (`labelsGetter.Get`). The three sample statements all end in
+`ORDER BY fingerprint, <time>` (part of the byte-equal ties: `c17StepText`, `c17downsql`), so the rows reach the loop grouped
+by fingerprint and ascending in time whatever batches the driver delivers them in. -/
+section SeriesSet
+open Qryn Qryn.Read.Assembly Qryn.Read.SeriesOrder
+
+/-- **series_comparator_is_label_order.** The comparator the final sort uses is the non-strict lexicographic order on
+    label sets — name, then value, label by label, a proper prefix first (Prometheus' `labels.Compare(a, b) ≤ 0`): it answers
+    `true` exactly when the two label sets are equal or the first is strictly smaller; it is total and transitive (what a
+    comparison sort needs), and the strict order is irreflexive, transitive and total on distinct label sets. -/
+theorem series_comparator_is_label_order :
+    (∀ a b : Labels, lessSeries a b = true ↔ (a = b ∨ labelsLt a b)) ∧
+    (∀ a b : Labels, (lessSeries a b || lessSeries b a) = true) ∧
+    (∀ a b c : Labels, lessSeries a b = true → lessSeries b c = true → lessSeries a c = true) ∧
+    (∀ a : Labels, ¬ labelsLt a a) ∧
+    (∀ a b : Labels, a ≠ b → labelsLt a b ∨ labelsLt b a) :=
+  ⟨lessSeries_iff, lessSeries_total, lessSeries_trans, labelsLt_irrefl, labelsLt_total⟩
+
+/-- **series_set_sorted.** What `Select` hands to the engine, for every list of assembled series and every assignment
+    `key` of (name-sorted) label sets to fingerprints: after `ReshuffleSeries` and the final sort the label sets are a
+    permutation of those `ReshuffleSeries` left — each label set **once** (`reshuffle_once`) — and **strictly ascending in
+    the label order**: the `SeriesSet` is sorted as `storage.Querier.Select` documents, with no label set handed out
+    twice. -/
+theorem series_set_sorted (key : Nat → Labels) (ss : List Series) :
+    let ls := (reshuffle key ss).map (fun s => key s.fp)
+    (sortSeries ls).Perm ls ∧ ls.Nodup ∧ (sortSeries ls).Pairwise labelsLt := by
+  intro ls
+  have hnd : ls.Nodup := (reshuffle_once key ss).1
+  obtain ⟨hp, _, hs⟩ := sortSeries_spec ls
+  exact ⟨hp, hnd, hs hnd⟩
+
+theorem scan_append (a b : List Row) : ∀ st : St, scan st (a ++ b) = (scan st a).bind (fun st' => scan st' b) := by
+  induction a with
+  | nil => intro st; simp [scan]
+  | cons r rs ih =>
+    intro st
+    simp only [List.cons_append, scan]
+    cases step st r with
+    | none => rfl
+    | some st' => exact ih st'
+
+/-- **assembly_across_batches.** The row loop reads one row at a time (`rows.Next` / `rows.Scan`) and keeps its state
+    (`res.Series`, `lastLabels`) across the batches the driver fetches: for **every** way of cutting the row stream into
+    batches — also in the middle of a series — running the loop batch after batch gives the series of the uncut stream. -/
+theorem assembly_across_batches (batches : List (List Row)) :
+    (batches.foldl (fun st b => st.bind (fun s => scan s b)) (some ⟨[], 0⟩)).map (·.series) = assemble batches.flatten := by
+  have : ∀ (bs : List (List Row)) (st : Option St),
+      bs.foldl (fun st b => st.bind (fun s => scan s b)) st = st.bind (fun s => scan s bs.flatten) := by
+    intro bs
+    induction bs with
+    | nil => intro st; cases st <;> simp [scan]
+    | cons b bs ih =>
+      intro st
+      simp only [List.foldl_cons, List.flatten_cons]
+      rw [ih]
+      cases st with
+      | none => rfl
+      | some s => simp [scan_append]
+  rw [this]
+  simp [assemble]
+
+-- the comparator on concrete label sets: {a="1"} < {a="1", b="2"} (proper prefix), {a="1", b="2"} < {a="2"}, equal sets: true
+example : lessSeries [([97], [49])] [([97], [49]), ([98], [50])] = true ∧
+    lessSeries [([97], [49]), ([98], [50])] [([97], [50])] = true ∧
+    lessSeries [([97], [50])] [([97], [49]), ([98], [50])] = false ∧
+    lessSeries [([97], [49])] [([97], [49])] = true := by decide
+
+end SeriesSet
 
 end Qryn.C17
